@@ -294,7 +294,8 @@ func c04Tables() []c04Table {
 // context are inconclusive here (C07 drives them with a populated context).
 func c04CheckHost(r *vlib.Run, tb c04Table, k int, w *c01World) string {
 	r.Eval()
-	blob := refpvm.Assemble(nil, 0, refpvm.I(10, byte(k)), refpvm.I(0))
+	blob := refpvm.Assemble(nil, 0, refpvm.I(append([]byte{10}, c04IDBytes(k)...)...), refpvm.I(0))
+	idClass := c04IDClass(tb, k)
 	cj := func() c04Case { return c04Case{Blob: vlib.Hex(blob), World: w.id, Mode: "host", Op: k, Table: tb.name} }
 	var im c01Impl
 	ip := c01Deblob(blob, &im)
@@ -333,6 +334,16 @@ func c04CheckHost(r *vlib.Run, tb c04Table, k int, w *c01World) string {
 					return fmt.Sprintf("ecalli %d (%s table) with gas %d: exit %s, gas left %d; expected out-of-gas", k, tb.name, gg, exit, left)
 				}, cj)
 				return class + " oog-missing"
+			}
+			// every host call - registered here, registered for another invocation kind or
+			// not at all - costs 10; when they cannot be paid the invocation's reported usage
+			// (R: used = limit - max(left, 0)) is the whole limit, i.e. nothing is left over
+			if left > 0 {
+				c04Viol(r, "Host.HostCall", "oog-undercharged", "table="+tb.name+";id="+idClass, func() string {
+					return fmt.Sprintf("ecalli %d (%s table, id class %s) with gas %d: out-of-gas exit with %d gas left over: reported usage %d instead of the limit %d (the host call's charge of 10 was not taken)",
+						k, tb.name, idClass, gg, left, int64(gg)-left, gg)
+				}, cj)
+				return class + " oog-undercharged"
 			}
 			// reported usage must stay within the limit whatever the convention for the remainder
 			if left > int64(g) {
@@ -375,7 +386,39 @@ func c04CheckHost(r *vlib.Run, tb c04Table, k int, w *c01World) string {
 			}
 		}
 	}
-	return class + " charged=10"
+	return class + " charged=10 id=" + idClass
+}
+
+// c04IDBytes encodes a host-call identifier as the shortest ecalli immediate whose
+// sign extension is id (1..4 bytes, little-endian).
+func c04IDBytes(id int) []byte {
+	for n := 1; n <= 4; n++ {
+		lo, hi := -(1 << uint(8*n-1)), 1<<uint(8*n-1)-1
+		if id >= lo && id <= hi {
+			out := make([]byte, n)
+			for i := range out {
+				out[i] = byte(id >> uint(8*i))
+			}
+			return out
+		}
+	}
+	panic("c04IDBytes: id out of range")
+}
+
+// c04IDClass: registered in this table / registered for another invocation kind /
+// not assigned at all (below 256) / beyond one byte / negative.
+func c04IDClass(tb c04Table, id int) string {
+	switch {
+	case id < 0:
+		return "negative"
+	case id >= 256:
+		return ">=256"
+	case id < len(tb.om) && tb.om[id] != nil:
+		return "registered"
+	case id < len(HostCallFunctions) && HostCallFunctions[id] != nil:
+		return "other-context"
+	}
+	return "unassigned<256"
 }
 
 func TestVerif_C04(t *testing.T) {
@@ -426,7 +469,8 @@ func TestVerif_C04(t *testing.T) {
 		for k := 0; k <= 26; k++ {
 			ks = append(ks, k)
 		}
-		ks = append(ks, 100, 27, 50, 99)
+		// unassigned below 256, beyond one byte (256+k must not run host call k), negative
+		ks = append(ks, 100, 27, 50, 77, 99, 101, 127, 128, 200, 255, 256, 256+20, 1000, 65535, 1<<24, -1, -128)
 		for _, k := range ks {
 			idx++
 			if !r.Mine(idx) {
